@@ -59,6 +59,18 @@ Profiles ==
     [name |-> "anam_transform", same |-> TRUE, groups |-> <<[db |-> "out", status |-> "perm", n |-> 1]>>,
        unreg |-> 0, moves |-> FALSE, rb |-> {"perm", "temp"}],
     [name |-> "regression",  same |-> TRUE,  groups |-> <<[db |-> "in", status |-> "perm", n |-> 1]>>,
+       unreg |-> 0, moves |-> FALSE, rb |-> {"perm", "temp"}],
+    [name |-> "nearest_neighbor", same |-> FALSE, groups |-> <<[db |-> "out", status |-> "perm", n |-> 1]>>,
+       unreg |-> 0, moves |-> FALSE, rb |-> {"perm", "temp"}],
+    [name |-> "moving_average", same |-> FALSE, groups |-> <<[db |-> "out", status |-> "perm", n |-> 1]>>,
+       unreg |-> 0, moves |-> FALSE, rb |-> {"perm", "temp"}],
+    [name |-> "least_squares", same |-> FALSE, groups |-> <<[db |-> "out", status |-> "perm", n |-> 1]>>,
+       unreg |-> 0, moves |-> FALSE, rb |-> {"perm", "temp"}],
+    [name |-> "migrate_multi", same |-> FALSE, groups |-> <<[db |-> "out", status |-> "perm", n |-> 2]>>,
+       unreg |-> 0, moves |-> FALSE, rb |-> {"perm", "temp"}],
+    [name |-> "migrate_locator", same |-> FALSE, groups |-> <<[db |-> "out", status |-> "perm", n |-> 1]>>,
+       unreg |-> 0, moves |-> FALSE, rb |-> {"perm", "temp"}],
+    [name |-> "kribayes",    same |-> FALSE, groups |-> <<[db |-> "out", status |-> "perm", n |-> 1], [db |-> "out", status |-> "perm", n |-> 1]>>,
        unreg |-> 0, moves |-> FALSE, rb |-> {"perm", "temp"}] }
 
 Protocols == {"intended", "transcribed"}
@@ -155,13 +167,14 @@ ExactAll == Exact
 (* Natural ways of failing offered to the conformance run, per fault point:  *)
 (* inputs that make the named stage of the real calculator fail by itself    *)
 (* (the injected faults need no input).                                      *)
-KrigLike == {"kriging", "krigtest", "xvalid", "test_neigh", "simtub_cond", "kriging_extdrift"}
+KrigLike == {"kriging", "krigtest", "xvalid", "test_neigh", "simtub_cond", "kriging_extdrift", "kribayes"}
 NaturalVariants(pname, f) ==
   CASE f = "check" /\ pname \in KrigLike -> {"nvar_mismatch", "ndim_mismatch", "no_model", "no_neigh", "no_z"}
     [] f = "check" /\ pname = "simtub_nc" -> {"ndim_mismatch", "no_model"}
     [] f = "check" /\ pname \in {"migrate", "anam_transform", "regression"} -> {"bad_name"}
     [] f = "check" /\ pname = "anam_transform" -> {"bad_name", "anam_not_fitted"}
     [] f = "check" /\ pname = "stats_grid" -> {"points_out"}
+    [] f = "check" /\ pname \in {"moving_average", "least_squares"} -> {"no_neigh", "ndim_mismatch"}
     [] f = "run" /\ pname \in {"kriging", "krigtest"} -> {"block_on_points"}
     [] f = "check" /\ pname = "kriging_extdrift" -> {"no_ext_out"}
     [] OTHER -> {}
@@ -174,7 +187,8 @@ SetupVariants(pname) ==
 Priors == {"plain", "clash"}
 \* profiles for which the conformance harness has a binding
 Bound == {"kriging", "krigtest", "xvalid", "test_neigh", "simtub_nc", "simtub_cond", "kriging_extdrift", "migrate",
-          "stats_grid", "simple_interp", "simfft", "anam_transform", "regression"}
+          "stats_grid", "simple_interp", "simfft", "anam_transform", "regression", "nearest_neighbor", "moving_average",
+          "least_squares", "migrate_multi", "migrate_locator", "kribayes"}
 
 \* Every terminal state is emitted: the scenario catalogue of the conformance run, with the
 \* prediction of the transcribed protocol.
